@@ -316,6 +316,12 @@ func GetUncompressedReadCloser(zstd zstdimpl.ZstdImpl, f *os.File, expectedSize 
 		return nil, err
 	}
 
+	if remainder > int64(len(uncompressedFirstChunk)) {
+		_ = f.Close()
+		return nil, fmt.Errorf("chunk %d is too short (%d bytes) for offset %d",
+			chunkNum, len(uncompressedFirstChunk), offset)
+	}
+
 	if chunkNum == int64(len(h.chunkOffsets)-2) {
 		// Last chunk in the file.
 		r := bytes.NewReader(uncompressedFirstChunk[remainder:])
@@ -420,6 +426,12 @@ func GetZstdReadCloser(zstd zstdimpl.ZstdImpl, f *os.File, expectedSize int64, o
 	if err != nil {
 		_ = f.Close()
 		return nil, err
+	}
+
+	if remainder > int64(len(uncompressedFirstChunk)) {
+		_ = f.Close()
+		return nil, fmt.Errorf("chunk %d is too short (%d bytes) for offset %d",
+			chunkNum, len(uncompressedFirstChunk), offset)
 	}
 
 	chunkToRecompress := uncompressedFirstChunk[remainder:]
